@@ -386,7 +386,7 @@ op line:  conc.transport  <script>  <impl trace>        (see harness/conc_transp
   trace   g<n>=<id>[names] | i<n>:<0|1>[names] | j<n>:<0|1>[names] | R[names]  joined by `|`; `H` = the move did not finish
 
 Model: `Transport.trun` — every call is one region under transportsMutex, so the run is the sequence of its regions; the
-reaper's `dead` predicate is "marked idle since its last use".  Specification, evaluated on the implementation's trace:
+reaper's `dead` predicate is "idle for more than 5 minutes since its last use" (idle periods add up: two `j` make 8 minutes).  Specification, evaluated on the implementation's trace:
 every move finishes (no deadlock); the cached names never repeat; getTransport returns the cached transport of that name
 if there is one and a fresh one otherwise, and the name is cached afterwards; a reaper pass removes exactly the transports
 idle for longer than the lifetime. -/
@@ -394,30 +394,39 @@ idle for longer than the lifetime. -/
 open Fetch.Transport in
 structure TrSt where
   s : TState
-  idle : List String
+  idle : List (String × Nat)      -- minutes since the name's transport was last used (absent = 0)
 
 def showNames (l : List String) : String := "[" ++ String.intercalate "," (sortStrs l) ++ "]"
+
+/-- minutes an `i` / `j` move adds: 2 x destinationTripperLifetime, destinationTripperLifetime - 1 minute -/
+def idleMinutes (k : Char) : Nat := if k == 'i' then 10 else 4
+
+def idleOf (idle : List (String × Nat)) (n : String) : Nat := ((idle.find? (·.1 == n)).map (·.2)).getD 0
+
+def addIdle (idle : List (String × Nat)) (n : String) (m : Nat) : List (String × Nat) :=
+  (n, idleOf idle n + m) :: idle.filter (·.1 != n)
+
+/-- `time.Since(since) > destinationTripperLifetime` (5 minutes) -/
+def idleTooLong (idle : List (String × Nat)) (n : String) : Bool := decide (idleOf idle n > 5)
 
 open Fetch.Transport in
 def transportMove (st : TrSt) (mv : String) : Option (TrSt × String) :=
   let names (s : TState) := showNames (s.transports.map (·.1))
   match mv.toList with
   | ['R'] =>
-    let s' := tstep st.s (.reap (fun n => st.idle.contains n))
-    some (⟨s', []⟩, "R" ++ names s')
+    let s' := tstep st.s (.reap (idleTooLong st.idle))
+    some (⟨s', st.idle.filter (fun p => !idleTooLong st.idle p.1)⟩, "R" ++ names s')
   | ['g', c] =>
     let n := String.singleton c
     let s' := tstep st.s (.get 0 n)
     let id := match s'.got.head? with | some (_, _, id) => id | none => 0
-    some (⟨s', st.idle.filter (· != n)⟩, s!"g{n}={id}" ++ names s')
-  | ['i', c] =>
+    some (⟨s', st.idle.filter (·.1 != n)⟩, s!"g{n}={id}" ++ names s')
+  | [k, c] =>
+    if k != 'i' && k != 'j' then none else
     let n := String.singleton c
     let present := (tget n st.s.transports).isSome
-    some (⟨st.s, if present then n :: st.idle else st.idle⟩, s!"i{n}:" ++ (if present then "1" else "0") ++ names st.s)
-  | ['j', c] =>
-    let n := String.singleton c
-    let present := (tget n st.s.transports).isSome
-    some (st, s!"j{n}:" ++ (if present then "1" else "0") ++ names st.s)
+    some (⟨st.s, if present then addIdle st.idle n (idleMinutes k) else st.idle⟩,
+          s!"{k}{n}:" ++ (if present then "1" else "0") ++ names st.s)
   | _ => none
 
 open Fetch.Transport in
@@ -433,7 +442,7 @@ def transportModel (script : String) : String :=
 /-- the specification's own bookkeeping while it reads the implementation's trace -/
 structure TrSpec where
   cached : List (String × Nat)     -- name ↦ transport, as the trace so far says
-  idle : List String
+  idle : List (String × Nat)       -- name ↦ minutes since its transport was last used
   maxId : Option Nat
 
 def trSpecMove (st : TrSpec) (mv obs : String) : TrSpec × Option String :=
@@ -444,11 +453,11 @@ def trSpecMove (st : TrSpec) (mv obs : String) : TrSpec × Option String :=
     let sameNames (want : List String) : Bool := sortStrs want == sortStrs keys
     match mv.toList with
     | ['R'] =>
-      let keep := st.cached.filter (fun p => !st.idle.contains p.1)
+      let keep := st.cached.filter (fun p => !idleTooLong st.idle p.1)
       if hd != "R" then (st, some "bad-trace")
       else if !sameNames (keep.map (·.1)) then
-        (st, some (if keys.any (fun k => st.idle.contains k) then "idle-transport-not-reaped" else "live-transport-reaped"))
-      else (⟨keep, [], st.maxId⟩, none)
+        (st, some (if keys.any (fun k => idleTooLong st.idle k) then "idle-transport-not-reaped" else "live-transport-reaped"))
+      else (⟨keep, st.idle.filter (fun p => !idleTooLong st.idle p.1), st.maxId⟩, none)
     | ['g', c] =>
       let n := String.singleton c
       match hd.splitOn "=" with
@@ -458,7 +467,7 @@ def trSpecMove (st : TrSpec) (mv obs : String) : TrSpec × Option String :=
         | some id =>
           if lhs != s!"g{n}" then (st, some "bad-trace") else
           let fresh := match st.maxId with | none => true | some m => decide (id > m)
-          let st' : TrSpec := ⟨(st.cached.filter (·.1 != n)) ++ [(n, id)], st.idle.filter (· != n),
+          let st' : TrSpec := ⟨(st.cached.filter (·.1 != n)) ++ [(n, id)], st.idle.filter (·.1 != n),
                               some (match st.maxId with | none => id | some m => max m id)⟩
           match st.cached.find? (·.1 == n) with
           | some (_, t) => if id != t then (st', some "another-transport-for-a-cached-name")
@@ -472,7 +481,7 @@ def trSpecMove (st : TrSpec) (mv obs : String) : TrSpec × Option String :=
       if k != 'i' && k != 'j' then (st, some "bad-trace")
       else if hd != s!"{k}{n}:" ++ (if present then "1" else "0") then (st, some "cached-transport-not-found")
       else if !sameNames (st.cached.map (·.1)) then (st, some "cache-changed")
-      else (⟨st.cached, if k == 'i' && present then n :: st.idle else st.idle, st.maxId⟩, none)
+      else (⟨st.cached, if present then addIdle st.idle n (idleMinutes k) else st.idle, st.maxId⟩, none)
     | _ => (st, some "bad-trace")
   | _ => (st, some (if obs == "H" || obs.endsWith "H" then "a-move-never-finished(deadlock)" else "bad-trace"))
 
